@@ -10,6 +10,7 @@ from .. import common, solvex, cfgs, monitors as mon
 
 LEVEL = "exploration"
 MOD = "C04"
+SITE_EXEMPT = {}     # evaluation sites this check cannot reach (site -> reason); see solvex.site_floor
 
 BOX = {"lo": [-1.5, -0.5], "hi": [0.9, 1.7]}
 BOXBALL = [{"t": "box", "l": [0.7, -2.0], "u": [1.0, 2.0]}, {"t": "ball", "c": [0.5, 1.0], "r": 0.25}]
@@ -104,6 +105,7 @@ def run(report, tier, seed):
     salts = common.salts_for(tier, seed)
     cps = _configs(tier, salts)
     res = solvex.explore(report, MOD, cps, classify=classify)
+    solvex.site_floor(report, res["tags"], exempt=SITE_EXEMPT)
     tags = res["tags"]
     cov = report.coverage
     dev_exits = sorted(t for t in tags if t.startswith("best_from_deviation|"))
